@@ -713,17 +713,50 @@ func checkC17(r *Run) {
 	r.Bounds["modes"] = len(modes)
 }
 
+// c17ResolveOne: the lookup itself and, for names made of name characters only, the list wrapper's classification of
+// that name (second of two parameters, with and without a value).
+func c17ResolveOne(n []byte) (vs []*Violation) {
+	want := refURIParamType(string(n))
+	cl := "known-name"
+	if want == sipsp.URIParamOtherF {
+		cl = "other-name"
+	}
+	add := func(site, detail string) {
+		vs = append(vs, &Violation{Property: "C17", Site: site, Rule: "known-uri-parameters-classified-case-insensitively", Class: cl, Detail: detail, Case: mkCase("C17resolve", site, nil, n, nil)})
+	}
+	defer recoverTo3(func(rule, class, detail string) { add("ParseAllURIParams", rule+" "+detail) })
+	if got := sipsp.URIParamResolve(n); got != want {
+		add("URIParamResolve", fmt.Sprintf("%q -> %#x want %#x", n, got, want))
+	}
+	if len(n) == 0 || len(n) > 300 {
+		return
+	}
+	for _, c := range n {
+		if !(c >= '0' && c <= '9' || c >= 'a' && c <= 'z' || c >= 'A' && c <= 'Z' || strings.IndexByte("-_.!~*'()%[]/:+$&", c) >= 0) {
+			return
+		}
+	}
+	for _, val := range []string{"=v", ""} {
+		buf := []byte("x=1;" + string(n) + val)
+		var l sipsp.URIParamsLst
+		l.Init(make([]sipsp.URIParam, 4))
+		_, _, e := sipsp.ParseAllURIParams(buf, 0, &l, sipsp.POptTokURIParamF|sipsp.POptInputEndF)
+		if e != sipsp.ErrHdrEOH && e != 0 {
+			continue // acceptance is not this clause's subject
+		}
+		if l.N != 2 || l.Params[1].T != want || l.Types != sipsp.URIParamOtherF|want {
+			add("ParseAllURIParams", fmt.Sprintf("%q: N=%d type %#x Types %#x, want type %#x", buf, l.N, l.Params[1].T, l.Types, want))
+		}
+	}
+	return
+}
+
 func c17Resolve(r *Run) {
 	chk := func(c *enumCtx, n []byte) {
 		c.st.Evals++
-		c.st.Transitions++
-		if got, want := sipsp.URIParamResolve(n), refURIParamType(string(n)); got != want {
-			cl := "known-name"
-			if want == sipsp.URIParamOtherF {
-				cl = "other-name"
-			}
-			r.Col.add(&Violation{Property: "C17", Site: "URIParamResolve", Rule: "known-uri-parameters-classified-case-insensitively", Class: cl,
-				Detail: fmt.Sprintf("%q -> %#x want %#x", n, got, want), Case: mkCase("C17resolve", "URIParamResolve", nil, n, nil)})
+		c.st.Transitions += 3
+		for _, v := range c17ResolveOne(n) {
+			r.Col.add(v)
 		}
 	}
 	enumStrings(r, all256(), 0, 2, nil, chk)
@@ -805,15 +838,14 @@ func init() {
 		return evalC17(&cs)
 	}
 	replayers["C17resolve"] = func(prop string, c *Case) []*Violation {
-		n := c.input()
-		if got, want := sipsp.URIParamResolve(n), refURIParamType(string(n)); got != want {
-			cl := "known-name"
-			if want == sipsp.URIParamOtherF {
-				cl = "other-name"
+		var out []*Violation
+		for _, v := range c17ResolveOne(c.input()) {
+			if v.Site == c.Driver {
+				v.Case = c
+				out = append(out, v)
 			}
-			return []*Violation{{Property: prop, Site: "URIParamResolve", Rule: "known-uri-parameters-classified-case-insensitively", Class: cl, Detail: fmt.Sprintf("%q -> %#x want %#x", n, got, want), Case: c}}
 		}
-		return nil
+		return out
 	}
 	replayers["C17byte"] = func(prop string, c *Case) []*Violation {
 		var m plMode
